@@ -352,6 +352,31 @@ theorem cdft_fixed_point_rw_years (d : DeltaShift) (L S h Ly Sy hy : Int) (dO dF
       rw [this]
       exact allAssigned_map_some _)
 
+/-- **QDM in its default configuration** — running windows over days of year and, inside each, year windows of the
+    future period: any family; relative: the guard on every inner year window -/
+theorem qdm_fixed_point_rw_years {P} (Fam : Family P) (tp : TrendPres) (em : EcdfMethod) (t : Rat)
+    (L S h Ly Sy hy : Int) (dO dF yearsF : List Int) (obs F : List Rat)
+    (hS : S = 2 * h + 1) (hh : 0 ≤ h) (hSL : S ≤ L) (hlen : dF.length = F.length) (hr : ∀ d ∈ dF, 1 ≤ d ∧ d ≤ 366)
+    (hSy : Sy = 2 * hy + 1) (hhy : 0 ≤ hy) (hSLy : Sy ≤ Ly) (hleny : yearsF.length = F.length)
+    (hg : tp = .relative → ∀ c ∈ useCenters S dF, ∀ cy ∈ yearCenters Sy (take yearsF (idxWindow L dF c)),
+      qdmRelGuard Fam (ecdf1 em) t
+        (Py.selectWhere (take F (idxWindow L dF c)) (yearMask (take yearsF (idxWindow L dF c)) (yearsInWindow Ly cy)))
+        (Fam.fit (take obs (idxWindow L dO c)))) :
+    applyLocationRW (winOfYears (qdmYearFn Fam tp em t none) Ly Sy yearsF) L S dO dO dF obs obs F
+      = .ok (F.map some) :=
+  applyLocationRW_fixed_on _ L S h dO dF obs F hS hh hSL hlen hr
+    (fun c hc => by
+      have hv : ∀ j ∈ idxWindow L dF c, j < F.length := fun j hj => hlen ▸ Lemmas.Pointwise.idxWindow_valid L dF c j hj
+      have hvy : ∀ j ∈ idxWindow L dF c, j < yearsF.length := fun j hj => hleny ▸ hv j hj
+      have hl : (take yearsF (idxWindow L dF c)).length = (take F (idxWindow L dF c)).length := by
+        rw [Lemmas.Pointwise.take_length _ _ hv, Lemmas.Pointwise.take_length _ _ hvy]
+      have := qdm_fixed_point_years Fam tp em t Ly Sy hy (take yearsF (idxWindow L dF c)) (take obs (idxWindow L dO c))
+        (take F (idxWindow L dF c)) hSy hhy hSLy hl (fun e cy hcy => hg e c hc cy hcy)
+      unfold qdmWindowYears at this
+      rw [if_neg (by simpa using hl)] at this
+      unfold winOfYears
+      rw [this]
+      exact allAssigned_map_some _)
 /-- DeltaChange in running-window mode with an unchanged model (`cm_future = cm_hist`, same dates): the result is
     `obs`, every step assigned.  (`applyLocationDC` loops over the days of `obs`; reading the roles
     (corrected series, calibration pair) = (`obs`, (`cm_hist`, `cm_future`)) it is the running-window skeleton with
